@@ -281,8 +281,9 @@ def main(tier, seed):
 
 
 def sig_of(cls, desc, bad):
-    if "not reported" in bad or "exits 0" in bad:
-        return "undetected:" + cls
+    # errors inside the parts of an externally mapped instance are dropped by STEPcomplex::STEPread (open finding)
+    if desc.startswith("complex part") and ("not reported" in bad or "exits 0" in bad):
+        return "complex_part_errors_dropped"
     return None
 
 
